@@ -203,6 +203,9 @@ Step(a) ==
   \/ TryLoad(a) \/ TryCas(a) \/ WaitPush(a) \/ WaitDec(a) \/ PostInc(a) \/ Pop(a) \/ WakeUnpark(a)
   \/ WakeSetUnparked(a) \/ TakeRelease(a) \/ ParkEnter(a) \/ ParkReturn(a) \/ IsUnparked(a) \/ SetRelease(a)
 Internal(a) == NextOp(a) \/ GiveUp(a)
+\* labels at which an actor performs internal steps (no verification point): under the baton these
+\* complete before anybody else moves
+InternalPcs == {"next", "giveup"}
 Obs(a) == IF pc[a] = "sb.park.ret"
             THEN (CASE res[a] = "Ok" -> 0 [] res[a] = "Timeout" -> 1 [] OTHER -> 2) ELSE -1
 
